@@ -553,6 +553,7 @@ package fsm
 //@   ensures [C02.ro.flag]  err == nil && typeIs(l, *regattapb.TxnRequest) ==> typeIs(out, *regattapb.TxnResponse) && asType(out, *regattapb.TxnResponse) != nil && (asType(out, *regattapb.TxnResponse).Succeeded == (forall j int :: 0 <= j && j < len(asType(l, *regattapb.TxnRequest).Compare) ==> holds(old(p.pebble.v.vP), old(p.pebble.v.vV), asType(l, *regattapb.TxnRequest).Compare[j])))
 //@   ensures [C02.ro.nth]   err == nil && typeIs(l, *regattapb.TxnRequest) ==> len(asType(out, *regattapb.TxnResponse).Responses) == (asType(out, *regattapb.TxnResponse).Succeeded ? len(asType(l, *regattapb.TxnRequest).Success) : len(asType(l, *regattapb.TxnRequest).Failure))
 //@   ensures [C01.lookup.idx]  err == nil && typeIs(l, LocalIndexRequest) ==> typeIs(out, *IndexResponse) && asType(out, *IndexResponse) != nil && asType(out, *IndexResponse).Index == (p.pebble.v.vP[IDX()] ? unle64(p.pebble.v.vV[IDX()]) : 0)
+//@   ensures [C07.capture.resp+C05] err == nil && typeIs(l, SnapshotRequest) ==> typeIs(out, *SnapshotResponse) && asType(out, *SnapshotResponse) != nil && asType(out, *SnapshotResponse).Index == (old(p.pebble.v.vP[IDX()]) ? unle64(old(p.pebble.v.vV[IDX()])) : 0)      // the index answered is the one stored in the streamed view
 //@   ensures [C03.lookup.lidx] err == nil && typeIs(l, LeaderIndexRequest) ==> typeIs(out, *IndexResponse) && asType(out, *IndexResponse) != nil && asType(out, *IndexResponse).Index == (p.pebble.v.vP[LIDX()] ? unle64(p.pebble.v.vV[LIDX()]) : 0)
 //@   modifies p.pebble.v.lazyReaders, p.pebble.v.vP, p.pebble.v.vV, asType(l, SnapshotRequest).Writer.sdata, asType(l, SnapshotRequest).Writer.slen, asType(l, SnapshotRequest).Writer.nmsg, asType(l, SnapshotRequest).Writer.msg
 //@   loop 0 invariant rangeindex < len(asType(l, *regattapb.TxnRequest).Success)
